@@ -10,11 +10,13 @@ from . import rsx
 
 def r1_enumerate(text):
     """for (i, x) in E.enumerate() { B }  =>  let mut i: usize = 0; for x in E { B  i += 1; }
-    side conditions: B contains no `continue`; E ends in .iter()/.into_iter()/.iter_mut()."""
+    side conditions: B contains no `continue`; E ends in .iter()/.into_iter()/.iter_mut().
+    Tuple-pattern loops that do not end in .enumerate() (e.g. over a map) are left alone."""
     n = 0
+    skip = 0
     while True:
         m = rsx.mask(text)
-        mm = re.search(r'\bfor\s*\(\s*(\w+)\s*,\s*(\w+)\s*\)\s+in\s+', m)
+        mm = re.compile(r'\bfor\s*\(\s*(\w+)\s*,\s*(\w+)\s*\)\s+in\s+').search(m, skip)
         if not mm:
             return text, n
         # find loop body brace
@@ -31,7 +33,8 @@ def r1_enumerate(text):
                 break
         expr = text[mm.end():ob].strip()
         if not expr.endswith('.enumerate()'):
-            raise rsx.AnchorError('R1: tuple-pattern for loop without .enumerate(): %r' % expr)
+            skip = mm.end()
+            continue
         inner = expr[:-len('.enumerate()')]
         if not re.search(r'\.(iter|into_iter|iter_mut)\(\)$', inner):
             raise rsx.AnchorError('R1: unsupported enumerate source %r' % inner)
@@ -43,6 +46,7 @@ def r1_enumerate(text):
         text = (text[:mm.start()] + 'let mut %s: usize = 0;\n' % i + 'for %s in %s ' % (x, inner) +
                 text[ob:cb] + '\n%s += 1;\n' % i + text[cb:])
         n += 1
+        skip = 0
 
 
 def r9_const_array_for(text):
@@ -249,3 +253,29 @@ def r14_all(text):
 
 
 RULES['R14'] = r14_all
+
+
+def r18_filter_all(text):
+    """X.iter().filter(|c| P).all(|c| Q)  =>  { let mut __all = true; for c in X.iter() { if P { if !(Q) { __all = false; break; } } } __all }
+    (same closure variable in both closures; P, Q side-effect free)."""
+    n = 0
+    while True:
+        m = rsx.mask(text)
+        mm = re.search(r'((?:\w+\s*\.\s*)*\w+)\s*\.\s*iter\(\)\s*\.\s*filter\(\s*\|(\w+)\|\s*', m)
+        if not mm:
+            return text, n
+        op = m.rfind('(', 0, mm.end())
+        cp = rsx.match_close(m, op, '(', ')')
+        pbody = text[mm.end():cp].strip()
+        m2 = re.match(r'\s*\.\s*all\(\s*\|(\w+)\|\s*', m[cp + 1:])
+        if not m2 or m2.group(1) != mm.group(2):
+            raise rsx.AnchorError('R18: filter not followed by all with the same variable')
+        op2 = cp + 1 + m[cp + 1:].index('(', m2.start())
+        cp2 = rsx.match_close(m, op2, '(', ')')
+        qbody = text[cp + 1 + m2.end():cp2].strip()
+        rep = '{ let mut __all = true; for %s in %s.iter() { if %s { if !(%s) { __all = false; break; } } } __all }' % (mm.group(2), re.sub(r'\s+', '', mm.group(1)), pbody, qbody)
+        text = text[:mm.start()] + rep + text[cp2 + 1:]
+        n += 1
+
+
+RULES['R18'] = r18_filter_all
